@@ -380,6 +380,13 @@ class EngineSystem:
                 self.handler = self.wf.run(start_event=E.TYPES["Start"](uid=uid))
             else:
                 self.handler = self.wf.run(ctx=ctx)
+            if getattr(self, "snap_at_start", False):
+                # serialised right after run(ctx=...) returned, before the control loop has executed anything
+                try:
+                    self.early_snap = json.loads(json.dumps(self.handler.ctx.to_dict()))
+                except Exception as ex:  # noqa: BLE001
+                    self.early_snap = None
+                    self.log({"e": "early_snapshot_error", "err": type(ex).__name__})
             self.consumer = self.loop.create_task(consume(self.handler))
             self.waiter = self.loop.create_task(wait(self.handler))
 
